@@ -10,6 +10,8 @@ func init() {
 			m := driver.Module + "/internal/sm9/bn256"
 			ov := map[string]string{
 				m + ".gfpMul":                    "verifModel_gfpMul",
+				m + ".montEncode":                "verifModel_montEncode", // plain-domain model: the conversion is the identity (injective, as the real one)
+				m + ".montDecode":                "verifModel_montDecode",
 				"(*" + m + ".curvePoint).IsOnCurve": "verifModel_curvePoint_IsOnCurve",
 				"(*" + m + ".twistPoint).IsOnCurve": "verifModel_twistPoint_IsOnCurve",
 			}
@@ -26,12 +28,21 @@ func init() {
 				add("verifH_c09_decode", P("which", which, "n", need), "accepted")
 				add("verifH_c09_decode", P("which", which, "n", need+3), "accepted")
 			}
+			dl := map[string]string{
+				m + ".curvePointAddComplete":        "verifModel_dl_curvePointAddComplete",
+				m + ".curvePointDoubleComplete":     "verifModel_dl_curvePointDoubleComplete",
+				"(*" + m + ".curvePoint).SetInfinity": "verifModel_dl_SetInfinity",
+				m + ".NewCurveGenerator":            "verifModel_dl_NewCurveGenerator",
+			}
+			for which := 0; which <= 2; which++ {
+				cs = append(cs, driver.Case{Harness: "verifH_c09_scalarmult", Pkg: "internal/sm9/bn256", Config: "purego", Params: P("which", which), Overrides: dl, MaxUnwind: 4000, TimeoutS: 1500, Portfolio: true})
+			}
 			return cs
 		},
-		Functions:   []string{"internal/sm9/bn256.(*gfP).Unmarshal, lessThanP, gfpUnmarshal (purego)", "(*G1).Unmarshal, (*G2).Unmarshal, (*GT).Unmarshal"},
-		Assumptions: []string{"field multiplication uninterpreted, curve membership opaque (uninterpreted predicates); the field prime is the package constant p2"},
+		Functions:   []string{"internal/sm9/bn256.(*G1).ScalarMult, (*G1).ScalarBaseMult, generatorTable, (*curvePointTable).Select, curvePointMovCond (drivers; point formulas replaced)", "internal/sm9/bn256.(*gfP).Unmarshal, lessThanP, gfpUnmarshal (purego)", "(*G1).Unmarshal, (*G2).Unmarshal, (*GT).Unmarshal"},
+		Assumptions: []string{"decoders: field multiplication uninterpreted, Montgomery conversion the identity (plain-domain model), curve membership opaque; the field prime is the package constant p2", "scalar multiplication: exact-multiple model (a point is the integer it is a multiple of; complete addition = integer addition, doubling = shift)"},
 		Bounds:      map[string]string{"quick": "every 32-byte value for gfP; every byte string of the exact and exact+3 length for G1 (64), G2 (128), GT (384), plus short inputs", "thorough": "same"},
-		Outside:     []string{"group laws, bilinearity, non-degeneracy, scalar multiplication, Marshal∘Unmarshal identity (field arithmetic)", "compressed encodings (square roots)"},
+		Outside:     []string{"group laws of the field-level point formulas, G2/GT scalar multiplication, bilinearity, non-degeneracy, Marshal∘Unmarshal identity (field arithmetic)", "compressed encodings (square roots)"},
 		Oracle:      "canonical-range predicate",
 	})
 }
